@@ -162,9 +162,32 @@ func evalOrd(f *ssa.Function, ranks [3]int) (param int, label int64, why string)
 	}
 	blk := f.Blocks[0]
 	var prev *ssa.BasicBlock
+	// what the stores executed on the way have put into local struct variables, field by field (a result variable
+	// assigned in the arms and returned once)
+	mem := map[*ssa.Alloc]map[int]ssa.Value{}
 	for steps := 0; steps < 200; steps++ {
 		for _, in := range blk.Instrs {
 			switch x := in.(type) {
+			case *ssa.Store:
+				switch ad := x.Addr.(type) {
+				case *ssa.FieldAddr:
+					if al, ok := ad.X.(*ssa.Alloc); ok {
+						if mem[al] == nil {
+							mem[al] = map[int]ssa.Value{}
+						}
+						mem[al][ad.Field] = x.Val
+					}
+				case *ssa.Alloc:
+					if ld, ok := x.Val.(*ssa.UnOp); ok && ld.Op == token.MUL {
+						if src, ok := ld.X.(*ssa.Alloc); ok {
+							cp := map[int]ssa.Value{}
+							for k, v := range mem[src] {
+								cp[k] = v
+							}
+							mem[ad] = cp
+						}
+					}
+				}
 			case *ssa.Phi:
 				for i, p := range blk.Preds {
 					if p == prev {
@@ -217,6 +240,25 @@ func evalOrd(f *ssa.Function, ranks [3]int) (param int, label int64, why string)
 			if len(t.Results) != 1 {
 				return -1, 0, "unexpected number of results"
 			}
+			// the returned composite as the path built it
+			if ld, ok := t.Results[0].(*ssa.UnOp); ok && ld.Op == token.MUL {
+				if al, ok := ld.X.(*ssa.Alloc); ok && len(mem[al]) > 0 {
+					param, label, gotLabel := -1, int64(0), false
+					for _, v := range mem[al] {
+						if p := pidx(v); p >= 0 {
+							param = p
+						} else if n, ok := cInt(constVal(v)); ok {
+							label, gotLabel = n, true
+						} else {
+							return -1, 0, "field stored from a computed value"
+						}
+					}
+					if param >= 0 && gotLabel {
+						return param, label, ""
+					}
+					return -1, 0, "could not read (score, step) from the returned composite"
+				}
+			}
 			return readBlockResult(t.Results[0], prev, pidx)
 		default:
 			return -1, 0, fmt.Sprintf("unexpected terminator %T", last)
@@ -245,6 +287,7 @@ func readBlockResult(v ssa.Value, prev *ssa.BasicBlock, pidx func(ssa.Value) int
 		return -1, 0, "returned value is not a local composite"
 	}
 	param, label, gotLabel := -1, int64(0), false
+	nStores := map[int]int{}
 	for _, ref := range *al.Referrers() {
 		fa, ok := ref.(*ssa.FieldAddr)
 		if !ok {
@@ -254,6 +297,10 @@ func readBlockResult(v ssa.Value, prev *ssa.BasicBlock, pidx func(ssa.Value) int
 			st, ok := r2.(*ssa.Store)
 			if !ok || st.Addr != ssa.Value(fa) {
 				continue
+			}
+			nStores[fa.Field]++
+			if nStores[fa.Field] > 1 {
+				return -1, 0, "a field of the returned composite is stored at several places"
 			}
 			if p := pidx(st.Val); p >= 0 {
 				param = p
@@ -835,6 +882,8 @@ func guardOf(s *symb, blk *ssa.BasicBlock, repl map[string]string) string {
 	return g
 }
 
+var eqConstAtom = regexp.MustCompile(`^\((-?\d+) == (.+)\)$`)
+
 // guardOfFull also returns the atoms (branch conditions) the reaching condition really depends on.
 func guardOfFull(s *symb, blk *ssa.BasicBlock, repl map[string]string) (string, []string) {
 	atomIdx := map[string]int{}
@@ -925,8 +974,33 @@ func guardOfFull(s *symb, blk *ssa.BasicBlock, repl map[string]string) (string, 
 	n := uint(len(atoms))
 	truth := make([]bool, 1<<n)
 	any := false
+	// assignments that cannot occur: the same value equal to two different constants
+	infeasible := make([]bool, 1<<n)
+	{
+		type eqAtom struct {
+			k   string
+			rhs string
+		}
+		eqs := map[int]eqAtom{}
+		for i, a := range atoms {
+			if m := eqConstAtom.FindStringSubmatch(a); m != nil {
+				eqs[i] = eqAtom{m[1], m[2]}
+			}
+		}
+		for i, a := range eqs {
+			for j, b := range eqs {
+				if i < j && a.rhs == b.rhs && a.k != b.k {
+					for asg := uint(0); asg < 1<<n; asg++ {
+						if asg&(1<<uint(i)) != 0 && asg&(1<<uint(j)) != 0 {
+							infeasible[asg] = true
+						}
+					}
+				}
+			}
+		}
+	}
 	for asg := uint(0); asg < 1<<n; asg++ {
-		truth[asg] = f(asg)
+		truth[asg] = f(asg) && !infeasible[asg]
 		any = any || truth[asg]
 	}
 	if !any {
@@ -958,7 +1032,7 @@ func guardOfFull(s *symb, blk *ssa.BasicBlock, repl map[string]string) (string, 
 				conj = false
 			}
 		}
-		if conj != truth[asg] {
+		if conj != truth[asg] && !infeasible[asg] {
 			exact = false
 		}
 	}
@@ -1585,6 +1659,30 @@ func traceDeltas(f *ssa.Function, s *symb) (map[int64]string, string) {
 		pred := iphi.Block().Preds[k]
 		if !dependsOn(e, iphi, map[ssa.Value]bool{}) {
 			continue // initial value
+		}
+		// the move chosen in the arms and applied once after them: back := 0; switch step { case L: back = d … };
+		// i = i - back — one update whose amount is a merge of the arms' amounts
+		if bo, isSub := e.(*ssa.BinOp); isSub && bo.Op == token.SUB && bo.X == ssa.Value(iphi) {
+			if dphi, isPhi := bo.Y.(*ssa.Phi); isPhi && (dphi.Block() == pred || dphi.Block().Dominates(pred)) {
+				okAll := true
+				for j, de := range dphi.Edges {
+					if k0, isC := cInt(constVal(de)); isC && k0 == 0 {
+						continue // no arm matched: stays
+					}
+					L, ok := caseConstOf(dphi.Block().Preds[j], f, iphi)
+					if !ok {
+						okAll = false
+						break
+					}
+					if _, dup := out[L]; dup {
+						return nil, fmt.Sprintf("two arms for step %d", L)
+					}
+					out[L] = linOf(s.expr(de)).String()
+				}
+				if okAll {
+					continue
+				}
+			}
 		}
 		// which case constant guards pred?
 		L, ok := caseConstOf(pred, f, iphi)
